@@ -1,6 +1,7 @@
 //! Per-property monitors. The table-driven properties use the generic sweep; the others
 //! have a module of their own.
 
+pub mod poly;
 pub mod quire;
 pub mod rngmon;
 
@@ -45,6 +46,7 @@ pub fn run(ctx: &Ctx, reg: &Registry, rep: &mut Report) {
         }
         "C04" => quire::run_c04(ctx, rep),
         "C19" => rngmon::run(ctx, reg, rep),
+        "C18" => poly::run(ctx, rep),
         "C12" => {
             let (exh, samples) = if ctx.quick() { (16.0, 1 << 24) } else { (32.0, 1 << 28) };
             let plans = sweep::plan_for(reg, "C12", exh, samples);
